@@ -8,6 +8,7 @@ import (
 	"sort"
 	"strconv"
 	"strings"
+	"sync"
 	"time"
 )
 
@@ -496,15 +497,58 @@ func driveReplay(cfg *Config, fn RunFn) int {
 }
 
 // watchdog aborts the process (exit 2, never a VIOLATION) when one run takes
-// absurdly long in wall-clock time: that is harness trouble, e.g. a goroutine
-// blocked non-durably so that the bubble cannot settle.
-func watchdog(what string) *time.Timer {
-	return time.AfterFunc(240*time.Second, func() {
-		buf := make([]byte, 1<<20)
-		n := runtime.Stack(buf, true)
-		fmt.Printf("INFRA: watchdog: %s did not finish within 240s of wall time\n%s\n", what, buf[:n])
-		os.Exit(2)
+// absurdly long: that is harness trouble, e.g. a goroutine blocked non-durably
+// so that the bubble cannot settle. "Long" is counted in five-second ticks that
+// this process lived through, 48 of them, not read off the wall clock: when the
+// virtual machine is paused (a snapshot) or stalls, the clock jumps by minutes
+// and a timer set for 240 s fires although the run has had a second of
+// processor time; a ticker drops the ticks it missed.
+type wdHandle struct{}
+
+var wdState struct {
+	once   sync.Once
+	mu     sync.Mutex
+	what   string
+	gen    uint64
+	active bool
+}
+
+func watchdog(what string) wdHandle {
+	wdState.once.Do(func() {
+		go func() {
+			tick := time.NewTicker(5 * time.Second)
+			defer tick.Stop()
+			var last uint64
+			n := 0
+			for range tick.C {
+				wdState.mu.Lock()
+				if wdState.active && wdState.gen == last {
+					n++
+				} else {
+					n, last = 0, wdState.gen
+				}
+				what := wdState.what
+				wdState.mu.Unlock()
+				if n >= 48 {
+					buf := make([]byte, 1<<20)
+					k := runtime.Stack(buf, true)
+					fmt.Printf("INFRA: watchdog: %s did not finish within 240s\n%s\n", what, buf[:k])
+					os.Exit(2)
+				}
+			}
+		}()
 	})
+	wdState.mu.Lock()
+	wdState.gen++
+	wdState.what, wdState.active = what, true
+	wdState.mu.Unlock()
+	return wdHandle{}
+}
+
+func (wdHandle) Stop() {
+	wdState.mu.Lock()
+	wdState.active = false
+	wdState.mu.Unlock()
 }
 
 // Itoa is a tiny helper for harness files.
